@@ -17,6 +17,7 @@ REL = "miasm/core/graph.py"
 LEVEL_TEXT = ("Who-writes and mirrored-update rules for DiGraph's adjacency state, mirror-image comparison of forward and "
               "backward algorithm wrappers (callbacks swapped successor<->predecessor), accessor orientation. These are "
               "necessary conditions; dominators, loops, SCCs etc. are not evaluated.")
+LEVEL_TEXT += ' Also: recursive walks never mutate a collection received as argument.'
 ASSUMPTIONS = ["CPython ast"]
 STATE = ("_edges", "_nodes_succ", "_nodes_pred", "_nodes")
 WRITERS = ("__init__", "add_node", "add_edge", "del_edge", "del_node")
